@@ -14,6 +14,7 @@ from pathlib import Path
 from . import common as C
 
 SHIM = C.VERIF / "harness" / "fi_shim.so"
+RETRIES: list = []
 
 
 def run_gen(spec: dict, trace_path: Path, *, kill_at: int | None = None, shim_kill: int | None = None,
@@ -400,7 +401,8 @@ def run_scenario(sc: dict, workdir: Path):
         if rc not in (0, -9):
             raise C.MachineryError(f"scenario {sc['name']} generation {gi}: driver exit {rc}: {err}")
         if not killed and (not events or events[-1]["event"] != "x_exit"):
-            raise C.MachineryError(f"scenario {sc['name']} generation {gi}: trace incomplete: {err}")
+            last = events[-1]["event"] if events else "<no event>"
+            raise C.MachineryError(f"scenario {sc['name']} generation {gi}: trace incomplete (rc={rc}, last event {last}): {err}")
         shim_path = base / f"gen{gi}.shim"
         gens_out.append({"events": events, "killed": killed, "ops": ops,
                          "fs_ops": parse_shim(shim_path, A) if shim_path.exists() else None})
@@ -439,9 +441,19 @@ def run_all(scenarios: list, nproc: int | None = None):
         keys = {}
         for sc in scenarios:
             keys.setdefault(sc["refkey"], sc)
+        def attempt(s):
+            # one retry from scratch: under heavy load a driver process occasionally dies for reasons that are
+            # not the library's (the retry runs in a fresh directory; retries are counted in RETRIES)
+            try:
+                return run_scenario(s, wd)
+            except C.MachineryError as ex:
+                RETRIES.append(f"{s['name']}: {str(ex)[:300]}")
+                s2 = dict(s)
+                s2["name"] = s["name"] + "-retry"
+                return run_scenario(s2, wd)
         with cf.ThreadPoolExecutor(nproc) as ex:
             refs = dict(zip(keys, ex.map(lambda s: reference_for(s, wd), keys.values())))
-            results = list(ex.map(lambda s: run_scenario(s, wd), scenarios))
+            results = list(ex.map(attempt, scenarios))
         for sc, gens in results:
             ref = refs[sc["refkey"]]
             if ref.conv is None and sc.get("need_conv", True):
